@@ -177,6 +177,25 @@ fn canon64(x: f64) -> u64 {
     }
 }
 
+/// 64-bit integers at, just below and just above the midpoints between neighbouring f32 / f64 values
+/// (`2^k + j * ulp + ulp/2 + {-1, 0, +1}` for every exponent k and a few mantissas j).
+fn rounding_stimuli() -> Vec<u64> {
+    let mut v = Vec::new();
+    for mant in [24u32, 53] {
+        for k in mant..64 {
+            let ulp = 1u64 << (k - mant + 1);
+            let half = ulp >> 1;
+            for j in [0u64, 1, 2, (1 << (mant - 2)) + 1, (1 << (mant - 1)) - 1] {
+                let base = (1u64 << k).wrapping_add(j.wrapping_mul(ulp));
+                for d in [half.wrapping_sub(1), half, half + 1, ulp - 1, 1] {
+                    v.push(base.wrapping_add(d));
+                }
+            }
+        }
+    }
+    v
+}
+
 macro_rules! float_checks {
     ($fname:ident, $P:ty, $N:ty, $B:ty, $name:expr, $le:expr, $canon:ident) => {
         fn $fname(vals: &[u128], partners: &[u128], fails: &mut Vec<Fail>, evals: &mut u64) {
@@ -187,6 +206,18 @@ macro_rules! float_checks {
             same!(fails, ty, "one", <$N as From<$P>>::from(<$P as One>::one()).to_bits(), (1.0 as $N).to_bits(), || "const");
             same!(fails, ty, "min_value", <$N as From<$P>>::from(<$P as Bounded>::min_value()).to_bits(), <$N>::MIN.to_bits(), || "const");
             same!(fails, ty, "max_value", <$N as From<$P>>::from(<$P as Bounded>::max_value()).to_bits(), <$N>::MAX.to_bits(), || "const");
+            // integers around the rounding midpoints of the 24-bit and 53-bit mantissas: a conversion that rounds twice
+            // (integer -> f64 -> f32) or truncates differs from the native conversion only for such values
+            for u in rounding_stimuli() {
+                *evals += 1;
+                let i = u as i64;
+                same!(fails, ty, "from_u64", <$P as FromPrimitive>::from_u64(u).map(|x| <$N as From<$P>>::from(x).to_bits()), <$N as FromPrimitive>::from_u64(u).map(|x| x.to_bits()), || format!("u={}", u));
+                same!(fails, ty, "from_i64", <$P as FromPrimitive>::from_i64(i).map(|x| <$N as From<$P>>::from(x).to_bits()), <$N as FromPrimitive>::from_i64(i).map(|x| x.to_bits()), || format!("i={}", i));
+                same!(fails, ty, "from_i64", <$P as FromPrimitive>::from_i64(i.wrapping_neg()).map(|x| <$N as From<$P>>::from(x).to_bits()), <$N as FromPrimitive>::from_i64(i.wrapping_neg()).map(|x| x.to_bits()), || format!("i={}", i.wrapping_neg()));
+                same!(fails, ty, "from_usize", <$P as FromPrimitive>::from_usize(u as usize).map(|x| <$N as From<$P>>::from(x).to_bits()), <$N as FromPrimitive>::from_usize(u as usize).map(|x| x.to_bits()), || format!("u={}", u));
+                same!(fails, ty, "NumCast-u64", <$P as NumCast>::from(u).map(|x| <$N as From<$P>>::from(x).to_bits()), <$N as NumCast>::from(u).map(|x| x.to_bits()), || format!("u={}", u));
+                same!(fails, ty, "NumCast-i64", <$P as NumCast>::from(i).map(|x| <$N as From<$P>>::from(x).to_bits()), <$N as NumCast>::from(i).map(|x| x.to_bits()), || format!("i={}", i));
+            }
             for &xa in vals {
                 *evals += 1;
                 let a = <$N>::from_bits(xa as $B);
